@@ -74,6 +74,9 @@ pub fn variants(r: &Runner) -> Vec<Op> {
         Op::FpSend { amount: 1, recipient: "stranger".into() },
         Op::AppendPrice { vamm: 0, price: v0.spot.max(1), timestamp: now },
         Op::AppendMulti { vamm: 0, prices: vec![v0.spot.max(1).to_string()], timestamps: vec![now] },
+        // a key nothing was ever submitted under (market index 3 stands for the key "DDD", which no deployed vAMM uses)
+        Op::AppendPrice { vamm: 3, price: v0.spot.max(1), timestamp: now },
+        Op::AppendMulti { vamm: 3, prices: vec![v0.spot.max(1).to_string()], timestamps: vec![now] },
         Op::PfOwner { owner: "stranger".into() },
     ];
     let _ = d;
